@@ -671,9 +671,14 @@ package avro
 
 // ================================================================ file.go: reading object container files (C07, C08)
 
+//   wfcomp(c): the compressor's private state is as its own methods leave it
+//@ ghost wfcomp(c iface) bool
+//@ type nullCompression : wfcomp = true
+//@ type *deflate : wfcomp = this != nil && (this.reader == nil || implementsiface(this.reader, "compress/flate.Resetter"))
+//@ type *snappyCodec : wfcomp = this != nil && (cap(this.buf) == 0 || cowned(this.buf))
 //@ iface compressionCodec.decompress
-//@   requires this != nil
-//@   ensures [C07,C08,C06] bhframe_unowned()
+//@   requires this != nil && wfcomp(this) && !cowned(compressed)
+//@   ensures [C07,C08,C06] bhframe_unowned() && wfcomp(this)
 //@   modifies BH, type deflate, type snappyCodec
 //@   emits ENC(this, err)
 
@@ -722,3 +727,58 @@ package avro
 //@ func (FileHeader).schema
 //@   ensures [C07] !maphas(fh.Meta, "avro.schema") ==> err != nil
 //@   modifies type Schema, type SchemaObject, type SchemaRecordField, BH
+
+// events of ReadFile's activation, in order, per data block:
+//   RV(count,err) RV(size,err) IN(payload,err) ENC(decoder,err) { CLR(p) CR(codec,p) CB(p,err) }^count IN(sync,err)
+// (IN = io.ReadFull; slots: a,b = offset,length of the bytes read, c,d = error)
+//@ spec lastIsSync(fh ptr) bool = tkind(tlen()-1) == evIN && tc(tlen()-1) == 0 && len(tbytes(tlen()-1, a, b)) == 16 && (forall j int :: 0 <= j && j < 16 ==> tbytes(tlen()-1, a, b)[j] == fh.Sync[j])
+// the last event is never a callback that failed (a failing callback ends ReadFile at once)
+//@ spec lastNotFailedCB() bool = tlen() == 0 || tkind(tlen()-1) != evCB || tb(tlen()-1) == 0
+
+//@ func ReadFile
+//@   requires wfIn() && r != nil && cb != nil && out != nil && (rkind(typedesc(tag(out))) == 22 ==> data(out) != nil && rawalloc(data(out), rtypesz(outdesc(out))))
+//     success only at a block boundary: the last stream access found end-of-input before the first byte of a block count,
+//     and what precedes it (if anything) is a complete, matching sync marker
+//@   ensures [C08] err == nil ==> inpos() == inlen() && tlen() >= 1 && tkind(tlen()-1) == evRV && ifaceof(tb(tlen()-1), tc(tlen()-1)) == io.EOF
+//@   ensures [C08] err == nil && tlen() >= 2 ==> tkind(tlen()-2) == evIN && tc(tlen()-2) == 0 && len(tbytes(tlen()-2, a, b)) == 16
+//     a callback error stops reading at that record and is returned unchanged
+//@   ensures [C07] tlen() >= 1 && tkind(tlen()-1) == evCB && tb(tlen()-1) != 0 ==> err == ifaceof(tb(tlen()-1), tc(tlen()-1))
+//     every record is decoded into memory that was zeroed immediately before (C10: nothing is inherited from the previous record)
+//@   after Read#1 assert [C07,C10] tkind(tlen()-1) == evCR && tkind(tlen()-2) == evCLR && ta(tlen()-2) == tc(tlen()-1)
+//@   loop 1 invariant wfIn() && (tlen() == 0 || lastIsSync(fh))
+//@   loop 1 invariant !cowned(compressed) && br != nil && wfcomp(decoder)
+//@   loop 1 invariant rtyp != nil
+//@   loop 1 invariant rawalloc(p, rtypesz(rtyp))
+//@   loop 1 invariant codec != nil && wfc(codec) && 0 <= dsz(codec) && decoder != nil
+//@   loop 1 invariant dsz(codec) == rtypesz(rtyp)
+//@   loop 1 decreases inlen() - inpos()
+//@   loop 2 invariant wfIn() && 0 <= i && tlen() >= 1 && lastNotFailedCB() && tkind(tlen()-1) != evRV
+//@   loop 2 invariant br != nil && wfRBS(br) && inlen() - inpos() < loopdec(1)
+//@   loop 2 invariant rtyp != nil && rawalloc(p, rtypesz(rtyp)) && codec != nil && wfc(codec) && dsz(codec) == rtypesz(rtyp) && 0 <= dsz(codec)
+//@   loop 2 decreases count - i
+
+// ---------------------------------------------------------------- decompressors (C07: damage is reported, never silently accepted)
+
+//@ func (nullCompression).decompress
+//@   implements compressionCodec.decompress
+//@   ensures [C07] err == nil && res == compressed
+//@   pure
+
+// a decompressor error is returned (wrapped), never dropped
+//@ func (*deflate).decompress
+//@   implements compressionCodec.decompress
+//@   requires d != nil && (d.reader == nil || implementsiface(d.reader, "compress/flate.Resetter"))
+//@   ensures [C07] d.reader != nil && implementsiface(d.reader, "compress/flate.Resetter")
+//@   ensures [C07] tlen() >= 1 && tkind(tlen()-1) == evENC && (tb(tlen()-1) != 0 ==> err != nil && wraps(err, ifaceof(tb(tlen()-1), tc(tlen()-1))))
+//@   ensures [C07,C06] bhframe_unowned()
+//@   modifies BH, type deflate, type bytes.Buffer, type bytes.Reader
+
+// the block ends with the big-endian CRC-32 of the uncompressed data; a mismatch, a short block or a decoder error is an error
+//@ func (*snappyCodec).decompress
+//@   implements compressionCodec.decompress
+//@   let n := len(compressed)
+//@   requires s != nil && (cap(s.buf) == 0 || cowned(s.buf)) && !cowned(compressed)
+//@   ensures [C07,C06] n < 4 ==> err != nil
+//@   ensures [C07] err == nil ==> n >= 4 && uint64(crc32of(res)) == uint64(compressed[n-1]) | uint64(compressed[n-2]) << 8 | uint64(compressed[n-3]) << 16 | uint64(compressed[n-4]) << 24
+//@   ensures [C07,C06] bhframe_unowned() && (cap(s.buf) == 0 || cowned(s.buf))
+//@   modifies s.buf, BH
